@@ -161,6 +161,11 @@ func (w *World) ruleCountedTraversals(r *Report, rule string, min int, want func
 				} else if cmp.X != ssa.Value(phi) {
 					continue
 				}
+				// the test as the condition to CONTINUE: `if i >= n { break }` at the head
+				// of a bare `for` is the same loop
+				if !lp.body[lp.header.Succs[0]] {
+					op = negOp(op)
+				}
 				if !usedAsIndexIn(phi, lp) {
 					continue
 				}
@@ -193,7 +198,7 @@ func (w *World) ruleCountedTraversals(r *Report, rule string, min int, want func
 						((op == token.GEQ && bc.Int64() == 0) || (op == token.GTR && bc.Int64() == -1))
 					fact = fmt.Sprintf("downward traversal from %s by %d while i %s %s", init, step, op, bound)
 				default:
-					ok2 = initIsC && initC.Value != nil && initC.Int64() == 0 && step == 1 && op == token.LSS && !short
+					ok2 = initIsC && initC.Value != nil && initC.Int64() == 0 && step == 1 && (op == token.LSS || op == token.NEQ) && !short
 					fact = fmt.Sprintf("starts at %s, advances by %d, continues while i %s %s", init, step, op, boundStr(bound))
 				}
 				if ok2 {
